@@ -73,6 +73,10 @@ type Counters struct {
 	Faults      map[string]int
 	EventHashes map[uint64]struct{}
 	MaxTasks    int
+	// Digest folds, in order, the event log hash, exit status and output of
+	// every simulated run of this process: the determinism self-test compares it
+	// across processes and GOMAXPROCS values.
+	Digest uint64
 }
 
 func NewCounters() *Counters {
@@ -95,6 +99,10 @@ func (c *Counters) add(o *Out) {
 		c.Faults[k] += v
 	}
 	c.EventHashes[o.EventHash] = struct{}{}
+	c.Digest = simrt.Mix(c.Digest, o.EventHash, uint64(o.ExitCode), simrt.MixString(o.Outcome), simrt.MixString(o.Stdout), uint64(o.Steps))
+	// stderr is left out: knut prints Go maps keyed by pointers in some
+	// diagnostics ("no price found for X in map[...]"), whose order follows
+	// addresses; diagnostics' wording is not part of any property
 	if o.Tasks > c.MaxTasks {
 		c.MaxTasks = o.Tasks
 	}
